@@ -1,0 +1,131 @@
+//go:build verif
+
+package window
+
+import (
+	"time"
+
+	"github.com/rulego/streamsql/types"
+)
+
+// Deterministic stepping of the time windows for the external verification harness
+// (build tag verif). The window is built with a watermark ticker that never fires and
+// Start is never called, so the harness, not a goroutine, owns the schedule: every
+// function below is exactly what one of the window's goroutines would do in one step.
+
+const verifNever = time.Duration(1 << 62)
+
+func verifCfg(config types.WindowConfig) types.WindowConfig {
+	config.WatermarkInterval = verifNever
+	return config
+}
+
+// VerifNewTumbling builds an (unstarted) tumbling window whose watermark never ticks.
+func VerifNewTumbling(config types.WindowConfig) (*TumblingWindow, error) {
+	return NewTumblingWindow(verifCfg(config))
+}
+
+// VerifNewSliding builds an (unstarted) sliding window whose watermark never ticks.
+func VerifNewSliding(config types.WindowConfig) (*SlidingWindow, error) {
+	return NewSlidingWindow(verifCfg(config))
+}
+
+// VerifNewSession builds an (unstarted) session window whose watermark never ticks.
+func VerifNewSession(config types.WindowConfig) (*SessionWindow, error) {
+	return NewSessionWindow(verifCfg(config))
+}
+
+func verifPop(wm *Watermark) (time.Time, bool) {
+	if wm == nil {
+		return time.Time{}, false
+	}
+	select {
+	case t := <-wm.watermarkChan:
+		return t, true
+	default:
+		return time.Time{}, false
+	}
+}
+
+// VerifDeliverOne: the trigger goroutine receives one watermark and handles it.
+func (tw *TumblingWindow) VerifDeliverOne() bool {
+	t, ok := verifPop(tw.watermark)
+	if ok {
+		tw.checkAndTriggerWindows(t)
+	}
+	return ok
+}
+
+func (sw *SlidingWindow) VerifDeliverOne() bool {
+	t, ok := verifPop(sw.watermark)
+	if ok {
+		sw.checkAndTriggerWindows(t)
+	}
+	return ok
+}
+
+func (sw *SessionWindow) VerifDeliverOne() bool {
+	t, ok := verifPop(sw.watermark)
+	if ok {
+		sw.checkAndTriggerSessions(t)
+	}
+	return ok
+}
+
+// VerifTick: one period of the watermark ticker (Watermark.update).
+func (tw *TumblingWindow) VerifTick() {
+	if tw.watermark != nil {
+		tw.watermark.update()
+	}
+}
+func (sw *SlidingWindow) VerifTick() {
+	if sw.watermark != nil {
+		sw.watermark.update()
+	}
+}
+func (sw *SessionWindow) VerifTick() {
+	if sw.watermark != nil {
+		sw.watermark.update()
+	}
+}
+
+func verifDrain(ch chan []types.Row) [][]types.Row {
+	var out [][]types.Row
+	for {
+		select {
+		case b := <-ch:
+			out = append(out, b)
+		default:
+			return out
+		}
+	}
+}
+
+// VerifDrain empties the output channel without blocking.
+func (tw *TumblingWindow) VerifDrain() [][]types.Row { return verifDrain(tw.outputChan) }
+func (sw *SlidingWindow) VerifDrain() [][]types.Row  { return verifDrain(sw.outputChan) }
+func (sw *SessionWindow) VerifDrain() [][]types.Row  { return verifDrain(sw.outputChan) }
+
+// VerifWatermark reports (maxEventTime, currentWatermark, lastSent, channel length); zero times as 0,false.
+func verifWm(wm *Watermark) (vals [3]int64, set [3]bool, chanLen int) {
+	if wm == nil {
+		return
+	}
+	wm.mu.RLock()
+	defer wm.mu.RUnlock()
+	for i, t := range []time.Time{wm.maxEventTime, wm.currentWatermark, wm.lastSentWatermark} {
+		if !t.IsZero() {
+			vals[i], set[i] = t.UnixNano(), true
+		}
+	}
+	return vals, set, len(wm.watermarkChan)
+}
+
+func (tw *TumblingWindow) VerifWatermark() ([3]int64, [3]bool, int) { return verifWm(tw.watermark) }
+func (sw *SlidingWindow) VerifWatermark() ([3]int64, [3]bool, int)  { return verifWm(sw.watermark) }
+func (sw *SessionWindow) VerifWatermark() ([3]int64, [3]bool, int)  { return verifWm(sw.watermark) }
+
+// VerifAlignWindowStart exposes alignWindowStart.
+func VerifAlignWindowStart(ts time.Time, size time.Duration) time.Time {
+	return alignWindowStart(ts, size)
+}
